@@ -1,9 +1,9 @@
-"""C11 — linear interpolation (E2, table size enumerated). The cubic spline is not under contract."""
+"""C11 — linear interpolation and cubic spline (E2, table size enumerated)."""
 from engines.symvc.discharge import run_spec
 
 
 def run(ctx):
-    ctx.assume("linear interpolation only (computeLinearInterpolation / computeLinearInterpolationAndDerivative on std::array tables of 1..4 points, thorough 5 and 6): each table size is a separate instantiation, complete over all strictly increasing abscissae, values and query points; infeasible branches are pruned on the fly",
-               "NOT covered: tables up to 50 points, and the whole CubicSpline class (natural spline system, evaluation, integral, mean value): not built")
+    ctx.assume("linear interpolation on std::array tables of 1..4 points (thorough 5, 6) and CubicSpline<sym,sym> on 2 and 3 points (thorough 4): each table size is a separate instantiation, complete over all strictly increasing abscissae (spline: spacings in [1e-6, 1e6], away from the 100*numeric_limits::min() pivot guard), values, query points and integration bounds; infeasible branches are pruned on the fly",
+               "NOT covered: larger tables (up to 50 points in the property statement)", "regularity of the spline at the nodes is stated with the exact symbolic derivatives of the returned value and Taylor's formula on each cubic piece (vsym differentiation rules trusted)")
     srcs = " ".join("%s/src/%s" % (ctx.repo, f) for f in ("Math/CubicSpline.cxx", "Math/MathException.cxx", "Exception/TFELException.cxx"))
     run_spec(ctx, flags=("-DVERIF_THOROUGH " if ctx.thorough else "") + srcs, expect_min=30, per_timeout=300 if ctx.thorough else 90)
